@@ -57,7 +57,9 @@ impl Check for C18 {
                 expected.push((e.signed(), date, eff, None, None));
             } else {
                 for d in &e.details {
-                    expected.push((d.signed(), date, eff, d.charge, d.reference.clone()));
+                    // a debit charge is an expense (+), a credited one a rebate (-)
+                    let ch = d.charge.map(|c| if d.charge_is_credit { c.neg() } else { c });
+                    expected.push((d.signed(), date, eff, ch, d.reference.clone()));
                 }
             }
         }
@@ -152,7 +154,7 @@ impl Check for C18 {
     fn rule(&self) -> String {
         "Each case: a consistent single-currency statement (CHF/EUR/USD): opening balance, 1-8 entries (40% credits) with booking date, value date absent / equal / \
          different (as date or date-time), no details, one detail or a batch of 2-4 details whose signed sum is the entry (one detail in five of a batch carries the \
-         opposite credit/debit indicator), included debit charges on one detail in six with TxAmt = amount -/+ charge, references, party names, remittance and \
+         opposite credit/debit indicator), included charges on one detail in six (a quarter of them credited rebates) with TxAmt = amount -/+ charge, references, party names, remittance and \
          additional info; closing balance = opening + credits - debits; file in either order with the matching row_order. Rendered as camt.053.001.04 XML. Oracle on \
          the tree: first transaction posts 0 and asserts the opening balance; then one transaction per entry or per detail in chronological order, the account posting \
          positive for credit and negative for debit by the entry's / detail's own indicator, dated by value date (booking date when absent) with the booking date as \
